@@ -47,6 +47,37 @@ if cmd == "add":
                               "witness": r["case"]})
         print("added", r["signature"])
     save(d)
+elif cmd == "addset":
+    # kf.py addset <PID> : merge replays/<PID>-witness-keys.json (written with VERIF_DUMP_FINDINGS=1) into known_sets/
+    import gzip
+    pid = sys.argv[2]
+    only = set(sys.argv[3:])
+    dump = json.load(open(os.path.join(V, "replays", pid + "-witness-keys.json")))
+    os.makedirs(os.path.join(V, "known_sets"), exist_ok=True)
+    byk = {(e["property"], e["signature"]): e for e in d["findings"]}
+    for sig, keys in sorted(dump.items()):
+        if only and h(sig) not in only:
+            continue
+        rel = f"known_sets/{pid}-{h(sig)}.txt.gz"
+        path = os.path.join(V, rel)
+        have = set()
+        if os.path.exists(path):
+            with gzip.open(path, "rt") as f:
+                have = set(f.read().split())
+        new = {hashlib.sha1(k.encode()).hexdigest()[:12] for k in keys}
+        allk = sorted(have | new)
+        with gzip.GzipFile(path, "wb", mtime=0) as f:
+            f.write(("\n".join(allk) + "\n").encode())
+        e = byk.get((pid, sig))
+        if e is None:
+            e = {"property": pid, "status": "known", "signature": sig, "what": "", "site": "", "witness": keys[0]}
+            d["findings"].append(e)
+        e["witness_set"] = rel
+        e["witness_count"] = len(allk)
+        if not e.get("what"):
+            e["what"] = f"{sig} - first witness: {keys[0]}"[:300]
+        print(f"{sig}: {len(have)} -> {len(allk)} witnesses")
+    save(d)
 elif cmd == "list":
     for e in d["findings"]:
         if len(sys.argv) > 2 and e["property"] != sys.argv[2]:
